@@ -70,6 +70,9 @@ def build(s, fr, top=True):
     if k == 'polygon':
         xs = np.array([fr.x(v[0]) for v in s['vs']], dtype=float)
         ys = np.array([fr.y(v[1]) for v in s['vs']], dtype=float)
+        if fr.ints and np.array_equal(xs, np.round(xs)) and np.array_equal(ys, np.round(ys)):
+            # integer-typed vertex arrays (as a user who types whole numbers gets them)
+            return R.PolygonPixelRegion(PixCoord(xs.astype(np.int64), ys.astype(np.int64)), **kw)
         if (len(s['vs']) + s['vs'][0][0]) % 3 == 0:
             # the same polygon given as vertices relative to an origin
             ox, oy = 16.0, -8.0
